@@ -117,6 +117,8 @@ def shape_lemma(goal, shape, rels, pos, width, timeout_ms=900000):
                 scan(x)
     scan(shape)
     n = (max(idx) + 1) if idx else 0
+    cmax = max([b[1] for _, b, _ in rels if isinstance(b, tuple)] + [0])
+    width = max(width, cmax.bit_length() + 2)         # the range must reach past every constant a leaf is related to
     vs = [z3.BitVec("v%d" % i, width + 1) for i in range(n)]
     s = z3.Solver()
     s.set("timeout", timeout_ms)
@@ -125,8 +127,9 @@ def shape_lemma(goal, shape, rels, pos, width, timeout_ms=900000):
     for i in pos:
         s.add(z3.UGT(vs[i], 0))
     for i, j, r in rels:
-        s.add({"eq": vs[i] == vs[j], "lt": z3.ULT(vs[i], vs[j]), "le": z3.ULE(vs[i], vs[j]),
-               "gt": z3.UGT(vs[i], vs[j]), "ge": z3.UGE(vs[i], vs[j])}[r])
+        b = z3.BitVecVal(j[1], width + 1) if isinstance(j, tuple) else vs[j]
+        s.add({"eq": vs[i] == b, "lt": z3.ULT(vs[i], b), "le": z3.ULE(vs[i], b),
+               "gt": z3.UGT(vs[i], b), "ge": z3.UGE(vs[i], b)}[r])
 
     def ev(t):
         k = t[0]
